@@ -73,6 +73,23 @@ def cap_mono():
     return z3.ForAll([a, b], z3.Implies(z3.And(a >= 0, a <= b, b <= NREC), z3.Select(B, a) <= z3.Select(B, b)))
 
 
+def build_cap_mono_lemma(run, prop):
+    """cap_mono() is not assumed: it is the conclusion of an induction on the record index whose base and step are discharged here.
+    P(n) := forall a. 0 <= a <= n -> B[a] <= B[n];  base P(0);  step: 0 <= n < NREC, CAP at n, P(n) |- P(n+1).
+    The induction schema over the naturals itself is applied at the meta level (the solver does not do induction unprompted)."""
+    n, a, a2 = z3.Ints("n!ind a!ind a2!ind")
+    P = lambda m: z3.ForAll([a2], z3.Implies(z3.And(a2 >= 0, a2 <= m), z3.Select(B, a2) <= z3.Select(B, m)))
+    fn = "lemma.capture_boundaries_monotone"
+    run.add(Obligation(prop, fn, "base_P0", [a >= 0, a <= 0], z3.Select(B, a) <= z3.Select(B, 0), kind="lemma", tag={"side": "lemma"}))
+    run.add(Obligation(prop, fn, "step_Pn_to_Pn1", [n >= 0, n < NREC, cap_at(n), P(n), a >= 0, a <= n + 1],
+                       z3.Select(B, a) <= z3.Select(B, n + 1), kind="lemma", tag={"side": "lemma"}))
+    # the quantified form used by parse_msg's obligation is exactly forall n <= NREC. P(n)
+    b = z3.Int("b!ind")
+    run.add(Obligation(prop, fn, "cap_mono_is_forall_n_Pn", [z3.ForAll([b], z3.Implies(z3.And(b >= 0, b <= NREC), P(b)))], cap_mono(),
+                       kind="lemma", tag={"side": "lemma"}))
+    run.add(Cover(prop, fn, "cover_step_hypotheses", [n >= 1, n < NREC, cap_at(n), cap_at(n - 1), z3.Select(B, 0) == 0, cap_at(z3.IntVal(0))]))
+
+
 def complete(k):
     """record k is completely present in the (possibly cut) file"""
     return z3.And(k >= 0, k < NREC, z3.Select(B, k + 1) <= CUT)
@@ -97,6 +114,7 @@ def build(run, prop=ID):
     sect(run, build_parse_msg, run, prop, E)
     sect(run, build_parse_all, run, prop, E)
     sect(run, build_append, run, prop, E)
+    sect(run, build_cap_mono_lemma, run, prop)
     # the records hold gen_msg() octets and are read back through parse_msg(): the message codec's round trip (C01's contract, which the
     # summaries above assume) is discharged in this check as well, so a defect in the codec that loses stored content fails here too
     from props import C01 as _C01
@@ -108,7 +126,7 @@ def build(run, prop=ID):
     note_engine(run, E)
     run.assume("file object model: read/seek/write semantics of a binary file opened 'a+b' as stated in the module docstring")
     run.assume("the capture was produced by append_msg/append_all (well-formed CAP) and possibly cut at any byte offset")
-    run.assume("record boundaries B are non-decreasing (follows from CAP by induction on the record index; used as a lemma, not re-proved)")
+    run.assume("induction schema over the naturals, applied at the meta level to lemma.capture_boundaries_monotone (base and step are discharged obligations)")
     run.extra["paths_explored"] = E.stats["paths"]
 
 
